@@ -177,10 +177,12 @@ impl ShardFileManager {
             let ghost os = outcomes(self.colls(), query_hashes@);
             proof { assert(*shard_col == self.colls()[ci]); assert(os[ci] == outcome(self.colls()[ci], query_hashes@)); }
 //@ before `if let Some(cce) =`
-            proof { assert(query_hash == probe(self.colls()[ci], query_hashes@[0])); }
+            // carries the property: the probe the code computed IS the truncated first hash keyed with THIS collection's key
+            proof { /*@C05,C18,C11*/ assert(query_hash == probe(self.colls()[ci], query_hashes@[0])); }
 //@ before `return Ok(Some((count, fdse)));`
                     proof {
-                        assert(os[ci] == Some::<Result<Option<(usize, FileDataSequenceEntry)>>>(Ok(Some((count, fdse)))));
+                        // carries the property: what is returned IS this collection's outcome (the designated shard's direct answer)
+                        /*@C05,C18,C11*/ assert(os[ci] == Some::<Result<Option<(usize, FileDataSequenceEntry)>>>(Ok(Some((count, fdse)))));
                         assert(disk_truthful(self.colls()[ci], query_hashes@, count as int, fdse));
                     }
 //@ end
